@@ -138,7 +138,7 @@ fn finish_case(e: &mut Ent, insn: Insn, er: [u32; 8], ccr: u8, patches: Vec<(u32
     let avoid: Vec<u32> = addr.into_iter().collect();
     let pc = e.code_addr(code.len() as u32, &avoid);
     let bus = e.bus_cfg();
-    (StepCase { code, pc, er, ccr, patches, bus }, Tag { insn, value, bit, addr, same_reg })
+    (StepCase { code, pc, er, ccr, patches, bus, irq: None }, Tag { insn, value, bit, addr, same_reg })
 }
 
 pub fn classify(case: &StepCase, j: &Judged, t: &Tag, stats: &mut Stats) {
